@@ -313,6 +313,28 @@ def rule_subseq_search(ctx, m):
         and ('bin', '<=', ('var', 'k'), ('attr', ('var', 'self'), 'k')) in list(walk_expr(first.cond))
     ctx.check(okc, 'R-PATH', file, 'SubsequenceSearch.align', 'cache reuse', 'cached results may be reused only when k <= the k they were computed for, and only their first k entries', al.line)
     setk = [s for s in al.body if s.k == 'assign' and s.target == ('attr', ('var', 'self'), 'k') and s.value == ('var', 'k')]
+    # the result view clamps the requested k to the k the cached result was computed for: k_eff = min(k, ss.k)
+    _pm, ini = _func(m, mod, 'SSMatches.__init__')
+    clamp = None
+    for s_ in walk_stmts(ini.body):
+        if s_.k == 'if':
+            chain = [s_]
+            while len(chain[-1].els) == 1 and chain[-1].els[0].k == 'if':
+                chain.append(chain[-1].els[0])
+            for arm in chain:
+                if any(t.k == 'assign' and fmt(t.target) == 'self.k' and fmt(t.value) == 'self.ss.k' for t in arm.then):
+                    clamp = arm
+    okc2 = False
+    found = None
+    if clamp is not None:
+        for x in walk_expr(clamp.cond):
+            if x[0] == 'bin' and x[1] in ('<', '<=', '>', '>=') and {fmt(x[2]), fmt(x[3])} == {'self.k', 'self.ss.k'}:
+                op = x[1] if fmt(x[2]) == 'self.k' else {'<': '>', '<=': '>=', '>': '<', '>=': '<='}[x[1]]
+                found = 'self.k %s self.ss.k' % op
+                okc2 = op in ('>', '>=')
+    ctx.check(okc2, 'R-PATH', file, 'SSMatches.__init__', 'k clamp',
+              'the number of matches shown is min(requested k, k the stored result was computed for): the stored k replaces the requested one only when the request is LARGER; found %s'
+              % found, ini.line)
     ctx.check(bool(setk), 'R-PATH', file, 'SubsequenceSearch.align', 'k recorded', 'a fresh search must record the k it was computed for (self.k = k)', al.line)
 
 
@@ -811,6 +833,57 @@ class S_foreach:
         self.d = {}
 
 
+def _must_assigned(f, nm, call_stmt):
+    """True iff on every path from the function entry to call_stmt the name nm has been (re)assigned."""
+    target = call_stmt
+
+    def assigns(s):
+        if s.k == 'assign':
+            return s.target == ('var', nm) or (s.target[0] == 'tuple' and ('var', nm) in s.target[1])
+        return False
+
+    def leaves(block):
+        """the block always leaves the function (return / raise as last statement)"""
+        return bool(block) and block[-1].k in ('return', 'raise')
+
+    def block_must(block):
+        """-> (assigned on every path that falls through the block?)"""
+        got = False
+        for s in block:
+            if assigns(s):
+                got = True
+            elif s.k == 'if':
+                a = leaves(s.then) or block_must(s.then)
+                b = leaves(s.els) or (block_must(s.els) if s.els else False)
+                if a and b:
+                    got = True
+        return got
+
+    def walk(block):
+        """-> None if target not inside; else True/False (must-assigned before reaching target)"""
+        got = False
+        for s in block:
+            if s is target:
+                return got
+            for b in sub_blocks(s):
+                r = walk(b)
+                if r is not None:
+                    return got or r
+            if assigns(s):
+                got = True
+            elif s.k == 'if':
+                a = leaves(s.then) or block_must(s.then)
+                b = leaves(s.els) or (block_must(s.els) if s.els else False)
+                if a and b:
+                    got = True
+                # default filling `if nm is None: nm = <own buffer>`: an explicit argument is the caller's own matrix by contract
+                if fmt(s.cond).replace('(', '').replace(')', '') == '%s is None' % nm and block_must(s.then) and not s.els:
+                    got = True
+        return None
+    r = walk(f.body)
+    return bool(r)
+
+
 def _san(m, mod, f, v, call_stmt, guards, depth=0):
     """-> (bool, reason)"""
     if v is None or depth > 4:
@@ -841,6 +914,8 @@ def _san(m, mod, f, v, call_stmt, guards, depth=0):
                 ok, why = _san(m, mod, f, x.value, x, guards, depth + 1)
                 if not ok:
                     return False, why
+            if v[1] in f.all_params and depth == 0 and not _must_assigned(f, v[1], call_stmt):
+                return False, "the caller's object also reaches this call on a path that bypasses the sanitising assignment (line %s)" % ds[0].line
             return True, 'sanitised'
         if v[1] in f.all_params:
             return False, "it is the caller's object passed through unchanged"
@@ -1042,7 +1117,12 @@ def rule_nw_border(ctx, m):
         while scale[0] == 'var' and scale[1] in env:
             scale = env[scale[1]]
         ok = scale[0] == 'call' and dotted(scale[1]) == 'getattr' and len(scale[2]) == 3 and scale[2][0] == ('var', 'substitution') and scale[2][1][0] == 'str'
-        if not ok:
+        or_default = (scale[0] == 'bin' and scale[1] == 'or') or (scale[0] == 'boolop' and scale[1] == 'or')
+        if or_default and any(x[0] == 'call' and dotted(x[1]) == 'getattr' for x in walk_expr(scale)):
+            ctx.violation('R-TAB', pm.path, 'needleman_wunsch', 'border gap cost (falsy default)',
+                          'the border scale is `%s`: a published gap cost of 0 is falsy and is replaced by the default, so the borders charge 1 per gap while the interior charges 0 '
+                          "(make_substitution_fn({}, gap=0): '' vs 'A' scores -1 instead of 0)" % fmt(scale)[:80], st.line, facts={'witness': {'gap': 0, 's1': '', 's2': 'A'}})
+        elif not ok:
             ctx.undecided('R-TAB', 'needleman_wunsch border gap cost', 'unrecognised provenance of the border scale %s' % fmt(scale))
         else:
             attr, dflt = scale[2][1][1], fmt(scale[2][2])
